@@ -265,13 +265,20 @@ def makeToken := makeTokenW true
 
 def toySum (bs : Bytes) : Nat := bs.foldl (· + ·) 0
 
+def padTag : Padding → Nat
+  | .pkcs1 => 1 | .oaepSha1 => 2 | .oaepSha256 => 3 | .pss => 4
+
+/-- checksum of a toy block; it binds the padding, so that decrypting with another padding than
+the one used to encrypt fails, as it does with real RSA -/
+def toyCk (pad : Padding) (bs : Bytes) : Nat := toySum bs + padTag pad
+
 def toyEnc (ks : Nat) (pad : Padding) (_rnd : Nat) (m : Bytes) : Option Bytes :=
   match ptbs ks pad with
   | none => none
   | some b =>
     if m.length ≤ b then
       let body := [m.length / 256, m.length % 256] ++ m ++ List.replicate (ks - 4 - m.length) 0
-      some (body ++ [toySum body / 256 % 256, toySum body % 256])
+      some (body ++ [toyCk pad body / 256 % 256, toyCk pad body % 256])
     else none
 
 def toyDec (ks : Nat) (pad : Padding) (c : Bytes) : Option Bytes :=
@@ -281,7 +288,7 @@ def toyDec (ks : Nat) (pad : Padding) (c : Bytes) : Option Bytes :=
     let l := c.getD 0 0 * 256 + c.getD 1 0
     let body := c.take (ks - 2)
     if c.length = ks ∧ l ≤ b ∧ ((body.drop (2 + l)).all (· == 0)) ∧
-        c.drop (ks - 2) = [toySum body / 256 % 256, toySum body % 256] then
+        c.drop (ks - 2) = [toyCk pad body / 256 % 256, toyCk pad body % 256] then
       some ((c.drop 2).take l)
     else none
 
